@@ -14,7 +14,6 @@ var taReviewed = map[string]string{
 	"TA|base.(*T).GetKeyValue|assert t.val.(*T)": "KEYVALUE values are built by MakeKeyValue with a *T payload; the one KEYVALUE with a string payload (MakeDoubleAsteriskKeyValue) is only rendered in signatures, never unpacked — read, not decided",
 	"TA|eval.(*Bind).handleScalarAsigntment|assert p.GetLastEvaluatedTPointer().(*base.T)": "Bind.Evaluation dispatches on a type switch over the same parser field immediately before the call; nothing writes the field in between",
 	"TA|eval.(*Bind).handleMultipleAsigntment|assert p.GetLastEvaluatedTPointer().([]*base.T)": "Bind.Evaluation dispatches on a type switch over the same parser field immediately before the call; nothing writes the field in between",
-	"TA|eval.(*Comma).Evaluation|assert p.GetLastEvaluatedTPointer().(*base.T)#2": "follows a successful e.Eval of an operand token: every evaluator ends by publishing a *T; the only []*T publication is Comma's own hand-over to Bind, which returns immediately — read, no input found that breaks it, not decided",
 	"TA|parser.(*Parser).AppendLastReturnT|assert p.lastEvaluatedT.(*base.T)":   "called at the `end` of a method body, after the last statement completed: a []*T is held only between Comma's hand-over and Bind's consumption inside one statement — read, not decided",
 	"TA|parser.(*Parser).AppendLastReturnT|assert p.lastEvaluatedT.(*base.T)#2": "same storage and reason as the first assertion of this function",
 	"TA|parser.(*Parser).AppendLastReturnT|assert p.lastEvaluatedT.(*base.T)#3": "same storage and reason as the first assertion of this function",
@@ -78,6 +77,11 @@ func engineTA(w *World, tier string) *EngineResult {
 	}
 	r.Stats["unchecked_assertions"] = n
 	r.floor("unchecked_assertions", 12)
+	for k := range taReviewed {
+		if _, used := r.Reviewed[k]; !used {
+			r.Notes = append(r.Notes, "reviewed entry without a matching site (stale): "+k)
+		}
+	}
 	r.finish()
 	return r
 }
